@@ -80,6 +80,57 @@ class Producers:
                             return {"what": k, "wraps": self.wrappers[k]}
         return None
 
+    # ---------------------------------------------------------- consumers
+    BOUND = ("cha", "method", "bound", "byname", "field", "ctor", "super")
+
+    def consumes(self, fn, pname):
+        """Does repository function `fn` take ownership of the resource passed
+        as parameter `pname`: on every CFG path to its *normal* exit the
+        parameter has been closed, entered by a `with`, returned, wrapped into
+        a tracked producer result, or handed to another consumer.  (Paths on
+        which `fn` raises before the hand-over are not part of the summary:
+        the wrapped result is itself a producer site of `fn`, analysed on all
+        exits there.)"""
+        key = (fn.qualname, pname)
+        memo = self.__dict__.setdefault("_consumes", {})
+        if key in memo:
+            return memo[key]
+        memo[key] = False          # recursion: assume not
+        if pname not in fn.params:
+            return False
+        try:
+            _, leaks, g, _ = analyse_function(fn, self.P, self,
+                                              initial=(pname,))
+        except Exception:
+            return False
+        # (a function that never returns normally consumes nothing)
+        ok = g.exit.id in g.reachable and not any(
+            lk["site_line"] == 0 and lk["exit"] == "normal" for lk in leaks)
+        memo[key] = ok
+        return ok
+
+    def consumed_args(self, fi, call):
+        """Indices of the positional arguments of `call` whose ownership the
+        callee takes (all resolved callees are repository functions that
+        consume the corresponding parameter)."""
+        if not call.args or any(isinstance(a, ast.Starred)
+                                for a in call.args):
+            return set()
+        cs = self.P.resolve_call(fi, call)
+        if not cs or any(c.kind != "repo" for c in cs):
+            return set()
+        out = None
+        for c in cs:
+            ps = list(c.fn.params)
+            if c.fn.cls is not None and c.how in self.BOUND and ps:
+                ps = ps[1:]
+            mine = set()
+            for i, a in enumerate(call.args):
+                if i < len(ps) and self.consumes(c.fn, ps[i]):
+                    mine.add(i)
+            out = mine if out is None else (out & mine)
+        return out or set()
+
     def _fixpoint(self):
         changed = True
         while changed:
@@ -109,7 +160,7 @@ class Producers:
         return False
 
 
-def analyse_function(fi, program, producers):
+def analyse_function(fi, program, producers, initial=()):
     """Returns (sites, leaks, cfg).  sites: list of dicts (one per producer
     call site); leaks: list of dicts with a witness path."""
     P = program
@@ -186,6 +237,44 @@ def analyse_function(fi, program, producers):
             d = site_by_call[id(call)]
             facts.add((var, d["lineno"], d["text"]))
 
+        # a producer call in any position other than the ones the transfer
+        # function follows (with-header, right-hand side of an assignment,
+        # returned value, expression statement, argument of a wrapping
+        # producer): the resource goes where this analysis cannot see it
+        # being closed (an argument of some other call, an element of a
+        # display, ...) -- tracked under a name nothing can kill
+        if label != "exc" and a is not None and node.kind in (
+                "stmt", "test", "for_iter", "with_enter"):
+            if node.kind == "with_enter":
+                root, tops = a.context_expr, [a.context_expr]
+            elif node.kind == "stmt" and isinstance(
+                    a, (ast.Assign, ast.Return, ast.Expr, ast.AnnAssign)):
+                root, tops = a, [a.value]
+            elif node.kind == "for_iter":
+                root, tops = getattr(a, "iter", a), []
+            elif node.kind == "test":
+                root = a.test if isinstance(a, (ast.If, ast.While)) else a
+                tops = []
+            else:
+                root, tops = a, []
+            if not isinstance(root, (ast.FunctionDef, ast.ClassDef,
+                                     ast.AsyncFunctionDef)):
+                ok = {id(t) for t in tops if t is not None}
+                for n in ast.walk(root):
+                    if isinstance(n, ast.Call) and id(n) not in site_by_call:
+                        # arguments a consuming callee takes ownership of
+                        for i in producers.consumed_args(fi, n):
+                            ok.add(id(n.args[i]))
+                for n in ast.walk(root):
+                    if isinstance(n, ast.Call) and id(n) in site_by_call:
+                        # arguments of a producer call move into its result
+                        for arg in list(n.args) + [k.value
+                                                   for k in n.keywords]:
+                            ok.add(id(arg))
+                for n in ast.walk(root):
+                    if isinstance(n, ast.Call) and id(n) in site_by_call \
+                            and id(n) not in ok:
+                        gen("<passed on at line %d>" % n.lineno, n)
         if node.kind == "with_enter":
             e = a.context_expr
             pc = top_call(e)
@@ -217,6 +306,14 @@ def analyse_function(fi, program, producers):
                     and n.func.attr == "close" \
                     and isinstance(n.func.value, ast.Name):
                 kill(n.func.value.id)
+            elif isinstance(n, ast.Call) and facts \
+                    and any(isinstance(x, ast.Name)
+                            and any(f[0] == x.id for f in facts)
+                            for x in n.args):
+                # a tracked variable handed to a consuming callee
+                for i in producers.consumed_args(fi, n):
+                    if isinstance(n.args[i], ast.Name):
+                        kill(n.args[i].id)
         if label == "exc":
             return frozenset(facts)
         if isinstance(a, ast.Assign):
@@ -258,7 +355,8 @@ def analyse_function(fi, program, producers):
         return frozenset(facts)
 
     # worklist --------------------------------------------------------------
-    IN = {g.entry.id: frozenset()}
+    IN = {g.entry.id: frozenset((p, 0, "<parameter %s>" % p)
+                                for p in initial)}
     origin = {}   # (node id, fact) -> (pred node id, pred fact) for witness
     todo = [g.entry]
     while todo:
